@@ -2,10 +2,11 @@
    (the descriptions that changed, delta encoded) and the identity pattern of its Parameter / datatype objects at
    the end; check_case re-runs the model and compares the complete snapshot after every op.  The program is carried
    twice, op by op: for the parameter component (Model.v: c_ops ...) and for the command / mixin component
-   (CmdModel.v: c_xops ...); check_case = check_params && check_cmds. *)
+   (CmdModel.v: c_xops ...), and a third time for the module property component (PropModel.v: c_pops ...);
+   check_case = check_params && check_cmds && check_props. *)
 From Coq Require Import List Arith ZArith Bool.
 Import ListNotations.
-Require Import FV.Base.Util FV.Gen.C09 FV.C09.Model FV.C09.CmdModel.
+Require Import FV.Base.Util FV.Gen.C09 FV.C09.Model FV.C09.CmdModel FV.C09.PropModel.
 
 Definition oz_eqb := opt_eqb Z.eqb.
 Definition dt_eqb (a b : dt) : bool :=
@@ -133,6 +134,40 @@ Definition model_xkeys (s : xstate) : list (option nat) :=
   flat_map (fun c => if xc_module c then xclass_keys s c else []) (xclasses s)
   ++ flat_map (fun x => if xi_alive x then xinst_keys x else []) (xinsts s).
 
+(* ---------- module property component *)
+Definition pobs := list (name * (option Z * Z)).
+Definition pobs_eqb : pobs -> pobs -> bool := list_eqb (pair_eqb Nat.eqb (pair_eqb oz_eqb Z.eqb)).
+Definition psnapshot := list (ent * pobs).
+
+Fixpoint psnap_get (e : ent) (l : psnapshot) : option pobs :=
+  match l with [] => None | (e', d) :: r => if ent_eqb e e' then Some d else psnap_get e r end.
+Fixpoint psnap_set (e : ent) (d : pobs) (l : psnapshot) : psnapshot :=
+  match l with
+  | [] => [(e, d)]
+  | (e', d') :: r => if ent_eqb e e' then (e, d) :: r else (e', d') :: psnap_set e d r
+  end.
+
+(* class i of the program is entry i + 1 of the table (entry 0 = frappy.modulebase.Module).  Class: value (or UNSET) and
+   default of every Property object in propertyDict; instance: the effective value of every property, as (Some v, 0) *)
+Definition model_psnapshot (s : pstate) : psnapshot :=
+  flat_map (fun ic => if pc_module (snd ic) then [(EClass (fst ic), pclass_obs (p_heap s) (snd ic))] else [])
+           (indexed 0 (tl (p_classes s)))
+  ++ flat_map (fun ii => if pi_alive (snd ii)
+                         then [(EInst (fst ii), map (fun kv => (fst kv, (Some (snd kv), 0%Z))) (pinst_obs s (snd ii)))]
+                         else [])
+              (indexed 0 (p_insts s)).
+
+Definition psnap_eqb (m o : psnapshot) : bool :=
+  Nat.eqb (length m) (length o)
+  && forallb (fun ed => match psnap_get (fst ed) o with Some d => pobs_eqb (snd ed) d | None => false end) m.
+
+(* identity pattern of the Property objects: propertyDict, then the entries of the class __dict__ (None = bare value) *)
+Definition pclass_keys (c : pcls) : list (option nat) :=
+  map (fun kp => Some (snd kp)) (pc_pd c)
+  ++ map (fun ke => match snd ke with PEProp i => Some i | PEBare _ => None end) (pc_dict c).
+Definition model_pkeys (s : pstate) : list (option nat) :=
+  flat_map (fun c => if pc_module c then pclass_keys c else []) (tl (p_classes s)).
+
 Record case := {
   c_ops : list op;
   c_ok : list bool;                    (* the op was carried out by the implementation (instantiation accepted) *)
@@ -142,6 +177,10 @@ Record case := {
   c_xops : list xop;
   c_xdeltas : list xsnapshot;          (* command descriptions + registered inputs of the same entities *)
   c_xids : list nat;                   (* identity pattern of Command objects and argument / result datatype objects *)
+  (* the module property component (PropModel.v) of the same program, op by op *)
+  c_pops : list pop;
+  c_pdeltas : list psnapshot;          (* class level Property values / defaults, effective property values of instances *)
+  c_pids : list nat;                   (* identity pattern of the class level Property objects *)
 }.
 
 (* the hypothesis acc_ok of the frame theorems, checked in every state the correspondence visits: every accessible
@@ -198,9 +237,27 @@ Definition check_cmds (c : case) : bool :=
   | None => false
   end.
 
-Definition check_case (c : case) : bool := check_params c && check_cmds c.
+Fixpoint prun_check (s : pstate) (seen : psnapshot) (ops : list pop) (ds : list psnapshot) : option pstate :=
+  match ops, ds with
+  | [], [] => Some s
+  | o :: ops', d :: ds' =>
+      let s' := pstep s o in
+      let seen' := fold_left (fun acc ed => psnap_set (fst ed) (snd ed) acc) d seen in
+      if psnap_eqb (model_psnapshot s') seen' then prun_check s' seen' ops' ds' else None
+  | _, _ => None
+  end.
+
+Definition check_props (c : case) : bool :=
+  Nat.eqb (length (c_pops c)) (length (c_ops c)) &&
+  match prun_check pstate0 [] (c_pops c) (c_pdeltas c) with
+  | Some s => list_eqb Nat.eqb (canon [] (model_pkeys s)) (c_pids c)
+  | None => false
+  end.
+
+Definition check_case (c : case) : bool := check_params c && check_cmds c && check_props c.
 
 (* for diagnosis in replay files *)
 Definition model_result (c : case) :=
   (model_snapshot (run (c_ops c)), canon [] (model_keys (run (c_ops c))),
-   (check_params c, check_cmds c, model_xsnapshot (xrun (c_xops c)), canon [] (model_xkeys (xrun (c_xops c))))).
+   (check_params c, check_cmds c, model_xsnapshot (xrun (c_xops c)), canon [] (model_xkeys (xrun (c_xops c)))),
+   (check_props c, model_psnapshot (prun (c_pops c)), canon [] (model_pkeys (prun (c_pops c))))).
